@@ -567,6 +567,37 @@ func (e *Engine) instrWrites(fc *FnCtx, in ssa.Instruction, ws map[string]HeapVa
 			}
 			return
 		}
+		if len(callee.Blocks) == 0 && e.contractFor(callee) == nil {
+			// what an unspecified callee may write through its arguments (mirrors the havoc at the call)
+			var addPointee func(t types.Type)
+			addPointee = func(t types.Type) {
+				pt, ok := t.Underlying().(*types.Pointer)
+				if !ok {
+					return
+				}
+				if isStruct(pt.Elem()) {
+					if n, ok := types.Unalias(pt.Elem()).(*types.Named); ok && n.Obj().Pkg() != nil && strings.HasPrefix(n.Obj().Pkg().Path(), e.P.Module) {
+						for i := range te.Struct(pt.Elem()).Fields {
+							add(te.FieldHeap(pt.Elem(), i))
+						}
+					}
+				} else {
+					add(te.CellHeap(pt.Elem()))
+				}
+			}
+			for _, a := range c.Args {
+				switch t := a.Type().Underlying().(type) {
+				case *types.Pointer:
+					addPointee(a.Type())
+				case *types.Slice:
+					add(te.ElemHeap(t.Elem()))
+				case *types.Interface:
+					if mi, ok := a.(*ssa.MakeInterface); ok {
+						addPointee(mi.X.Type())
+					}
+				}
+			}
+		}
 		if len(callee.Blocks) == 0 {
 			for _, d := range e.CS.HavocOn {
 				if strings.HasPrefix(fullName(callee), d.Prefix) {
